@@ -505,3 +505,53 @@ def rule_dtype_columns(P) -> RuleResult:
 
 def rule_typesafe_columns(P) -> RuleResult:
     return _only_columns(rule_typesafe(P))
+
+
+# ----------------------------------------------------------------------
+# R-ADMITTED (thorough, C04): overload lookup walks the operand's MRO, so an overload declared for T also receives
+# operands of every announceable subclass of T.  Each implementation must be type-safe and dtype-sound for those too.
+
+def rule_admitted(P) -> RuleResult:
+    import itertools
+    reg = registry.get(P)
+    it = Interp(P, reg)
+    res = RuleResult('R-ADMITTED')
+    res.exhaustive = True
+
+    def admitted(t):
+        if t is ANY or t is ASTERISK or t is object:
+            return [t]
+        return admitted_operand_dtypes(reg, t) or [t]
+
+    def judge(construct, label, impl, lead, declared, intypes, outtype, where):
+        pools = [admitted(t) for t in intypes]
+        for combo in itertools.product(*pools):
+            if list(combo) == list(intypes):
+                continue       # the declared signature itself is R-DTYPE / R-TYPESAFE's business
+            if any(c in (ANY, ASTERISK, object) for c in combo):
+                continue
+            r, frame = run_overload(it, impl, lead, [A(t) for t in combo])
+            errs = type_errors(frame)
+            cn = ', '.join(t.__name__ for t in combo)
+            if errs:
+                exc, what, atoms = errs[0]
+                res.fail(construct, f'admitted:typeerror:{cn}', f'{label} is also selected for operands ({cn}) through the MRO '
+                         f'lookup, and its implementation raises {exc} in `{what}` for them', where)
+                continue
+            a = atoms_of(r)
+            if a is not TOP and not isinstance(outtype, OperandDtype):
+                bad = sorted(x.__name__ for x in a if not conforms(x, outtype))
+                if bad:
+                    res.fail(construct, f'admitted:dtype:{cn}', f'{label} applied to ({cn}) returns {", ".join(bad)} but announces '
+                             f'{tname(outtype)}', where)
+                    continue
+            res.ok({'overload': label, 'admitted_operands': cn})
+    for f in reg.funcs:
+        if f.kind != 'function' or _is_stub(f.impl):
+            continue
+        lead = [row_struct('postings')] if f.pass_row else [connection_struct()] if f.pass_context else []
+        judge(f'function:{f.label}', f.label, f.impl, lead, f.intypes, f.intypes, f.outtype, loc(f.impl))
+    for o in reg.ops:
+        if len(o.intypes) == 1 and isinstance(o.impl, FuncInfo):
+            judge(f'operator:{o.label}', o.label, o.impl, [], o.intypes, o.intypes, o.outtype, loc(o.impl))
+    return res
